@@ -75,14 +75,18 @@ void __tsan_on_report(void* rep) {
 static volatile int tsan_reports_in_case;
 #endif
 
-static const uint64_t DIMS[] = {4, 16, 64, 2048, 8, 256, 8192, 32, 16384, 1024};  // both sides of every size threshold (m = 4, 8, 16, 2048/4096)
+// both sides of every size threshold (N < 8 paths, m = 4, 8, 16, 2048/4096); the thorough tier uses every power of two
+static const uint64_t DIMS_Q[] = {4, 16, 64, 2048, 8, 256, 8192, 32, 16384, 1024, 2, 4096};
+static const uint64_t DIMS_T[] = {4, 16, 64, 2048, 8, 256, 8192, 32, 16384, 1024, 2, 4096, 128, 65536, 512, 32768};
 
 static void conc_case(int warm, unsigned dimsel, int T, int rounds, unsigned rep) {
   char key[96];
   const int sched = (int)(rep % 3);
   static const char* sn[] = {"free", "pinned-2cpu", "yield"};
   snprintf(key, sizeof key, "concurrent:%s|T=%d,%s", warm ? "simple-API(warmed-up)" : "module+table-API(cold)", T, sn[sched]);
-  const uint64_t N1 = DIMS[dimsel % ARRAY_LEN(DIMS)], N2 = DIMS[(dimsel + 1 + rep) % ARRAY_LEN(DIMS)];
+  const uint64_t* DIMS = G.thorough ? DIMS_T : DIMS_Q;
+  const size_t nd = G.thorough ? ARRAY_LEN(DIMS_T) : ARRAY_LEN(DIMS_Q);
+  const uint64_t N1 = DIMS[dimsel % nd], N2 = DIMS[(dimsel + 1 + rep) % nd];
   if (!case_begin(key, "dims=%" PRIu64 ",%" PRIu64 " threads=%d rounds=%d rep=%u", N1, N2, T, rounds, rep)) return;
   rng_t* r = crng();
   tsan_reports_in_case = 0;
